@@ -152,9 +152,9 @@ let () =
           (* observation *)
           let parts = String.split_on_char '|' obs in
           let (hdr, recs) = match parts with
-            | kf :: cnt :: sym :: rr :: wts :: pssm :: recs -> ((kf, cnt, sym, rr, wts, pssm), recs)
+            | kf :: cnt :: sym :: raw :: rr :: wts :: pssm :: recs -> ((kf, cnt, sym, raw, rr, wts, pssm), recs)
             | _ -> raise (Bad "bad observation") in
-          let (kf, cnt, sym, rr, wts, pssm) = hdr in
+          let (kf, cnt, sym, raw, rr, wts, pssm) = hdr in
           if kf <> "K=" ^ string_of_int k then diff ("alphabet-size " ^ kf);
           (* model assumptions about the data set: cached counts and indexing *)
           let exp_cnt = String.concat "/" (List.map (fun c -> show_ints (List.map int_of_n c)) (sampler_data_counts kn data)) in
@@ -163,6 +163,24 @@ let () =
           let exp_sym = String.concat "/" (List.map show_ints data_i) in
           let exp_sym = if exp_sym = "" then "-" else exp_sym in
           if sym <> "sym=" ^ exp_sym then diff "index-of-striped-sequence";
+          (* the data set handed to the model is the first len cells of every striped sequence in linear
+             order; for src=matrix / src=sample the remaining cells are the (non-wildcard) padding of pads= *)
+          let src = (try get "src" with Bad _ -> "text") in
+          let pads = (try List.map (fun s -> if s = "." then "" else s) (split ',' (get "pads")) with Bad _ -> []) in
+          if raw <> "raw=P" then begin
+            let raws = if raw = "raw=-" then [] else
+                List.map (fun s -> if s = "." then "" else s)
+                  (String.split_on_char ',' (String.sub raw 4 (String.length raw - 4))) in
+            if List.length raws <> nseq then diff "raw-cells-number-of-sequences"
+            else List.iteri (fun i r ->
+                let t = List.nth seqs i in
+                let lt = String.length t in
+                if String.length r < lt || String.sub r 0 lt <> t then diff (Printf.sprintf "raw-cells-of-sequence-%d-do-not-start-with-the-sequence" i)
+                else if src <> "text" then begin
+                  let pd = (try List.nth pads i with _ -> "") in
+                  if String.sub r lt (String.length r - lt) <> pd then diff (Printf.sprintf "raw-cells-of-sequence-%d-padding-differs-from-pads" i)
+                end) raws
+          end;
           if rr <> "rerun=same" then propfail ("nondeterministic-trace " ^ rr);
           (* model assumption about the choices: the new start is drawn among len - width + 1 weights *)
           if wts <> "wts=ok" then diff ("weights-not-over-exactly-the-valid-start-positions " ^ wts);
